@@ -382,6 +382,10 @@ def flushEnv (g : Cfg) (r : R) : Env :=
   { failAt := g.failAt, sendfile := g.sendfile, chunked := r1.chunked, hl := (g.head r1).length,
     trailerEmpty := r2.trailer.isEmpty, lastLen := (Resp.lastChunk r2).length }
 
+/-- Flush encodes the head after its close-delimiting decision -/
+def flushOpEnv (g : Cfg) (r : R) : Env :=
+  { flushEnv g r with hl := (g.head (Resp.markDelim (Resp.checkChunked g (Resp.writeHeader200 r)))).length }
+
 def readFromEnv (g : Cfg) (r : R) : Env :=
   let r1 := { Resp.writeHeader200 r with hasBody := true }
   { failAt := g.failAt, sendfile := g.sendfile, hl := (g.head r1).length }
@@ -390,7 +394,7 @@ def readFromEnv (g : Cfg) (r : R) : Env :=
 do not touch pooled buffers) -/
 def eraseOp (g : Cfg) (r : R) : Resp.Op → Option (Env × Op)
   | .write d => some (writeEnv g r, .write d.length)
-  | .flush => some (flushEnv g r, .flush)
+  | .flush => some (flushOpEnv g r, .flush)
   | .readFrom k d => some (readFromEnv g r, .readFrom k d.length)
   | _ => none
 
